@@ -1,6 +1,7 @@
 //! Failing input of F33 (see DESIGN.md §6): FAILS on the tree before `fix:` a8199bc, passes afterwards.
 //! Copy to tests/ of a scratch worktree and run `cargo test --offline --test fixed_f33`.
-use vfs::{MemoryFS, VfsErrorKind, VfsPath};
+use vfs::error::VfsErrorKind;
+use vfs::{MemoryFS, VfsPath};
 
 #[test]
 fn f33_create_dir_on_the_root_reports_directory_exists() {
